@@ -393,7 +393,7 @@ func (e *Env) explore(sc *Scenario, res *Result) {
 					res.Violations = append(res.Violations, v)
 				}
 				st.Complete = false
-				if len(unknownSigs) >= 3 {
+				if len(unknownSigs) >= atoi(os.Getenv("VERIF_MAX_UNKNOWN"), 3) {
 					stop = true
 				}
 			}
